@@ -32,11 +32,15 @@ def zone_transitions(z: str) -> List[int]:
 
 
 def gen_epoch_zone(rng: random.Random, zone: str) -> float:
-    """An instant 2000..2037 biased to DST transitions, year ends, leap days and local midnights."""
+    """An instant 2000..2037 biased to DST transitions, year ends, leap days and local midnights; one in twenty
+    lies beyond 2038-01-19 (seconds that no longer fit a signed 32-bit integer), up to 2100."""
     lo, hi = 946_684_800 + 86400 * 2, 2_145_830_400 - 86400 * 40
     r = rng.random()
     tr = zone_transitions(zone)
-    if r < 0.45 and tr:
+    if r < 0.05:
+        lo, hi = 2**31 - 86400 * 3, 4_102_444_800
+        t = rng.choice([rng.randrange(2**31 - 7200, 2**31 + 7200), rng.randrange(lo, hi), rng.randrange(lo, hi)])
+    elif r < 0.45 and tr:
         t = rng.choice(tr) + rng.choice([-86400, -7200, -3600, -1800, -60, -1, 0, 1, 60, 1800, 3600, 7200, 86400]) \
             + rng.randrange(-3600, 3600)
     elif r < 0.6:
@@ -262,7 +266,8 @@ def gen_device(rng, kind: str, idx: int) -> Dict[str, Any]:
 
 def gen_breeze_state(rng, remote_id: Optional[str] = None) -> Dict[str, Any]:
     rid = remote_id or "".join(rng.choice("ABCDEFGHIJKLMNOPQRSTUVWXYZ0123456789") for _ in range(rng.choice([1, 4, 7, 8, 8, 8])))
-    return {"t_on": rng.random() < 0.5, "t_mode": rng.randrange(1, 6), "t_target": rng.randrange(16, 31),
+    return {"t_on": rng.random() < 0.5, "t_mode": rng.randrange(1, 6),
+            "t_target": rng.choice([rng.randrange(16, 31), rng.randrange(16, 31), 0, 15, 31, 60, 127, 128, 255, rng.randrange(256)]),
             "t_fan": rng.randrange(4), "t_swing": rng.randrange(2),
             "t_temp10": rng.choice([0, 1, 255, 256, 281, 65535, 61694, 65264, 32767, 32768, rng.randrange(65536)]), "t_remote": rid}
 
@@ -382,6 +387,9 @@ def gen_mixed(rng, n_clients: int, max_ops: int, reply_kinds: List[str], send_fa
                 st["jump_during"] = {"after": round(rng.uniform(0, 2.0), 4),
                                      "s": rng.choice([-86400, -3600, -61, -1.5, 1.5, 61, 3600, 86400, 7 * 86400])}
             seq.append(st)
+            if rng.random() < 0.06:
+                seq.append({"kind": "disconnect", "client": ci})
+                seq.append({"kind": rng.choice(["connect", "aenter"]), "client": ci})
             if jumps and rng.random() < 0.1:
                 seq.append({"kind": "wall_jump", "client": ci,
                             "s": rng.choice([-86400 * 3, -3600, -60, -1, 1, 60, 3600, 86400 * 3])})
@@ -645,6 +653,11 @@ def gen_sched_record(rng, zone: str, around: float) -> str:
             t = rng.choice(tr) + 60 * rng.randrange(-90, 90)
             start = t - t % 60
             end = start + 60 * rng.randrange(0, 240)
+    if rng.random() < 0.04:
+        # beyond 2038-01-19: seconds that no longer fit a signed 32-bit integer
+        start = rng.choice([rng.randrange(2**31 - 3600, 2**31 + 3600), rng.randrange(2**31, 2**32 - 86400 * 2)])
+        start -= start % 60
+        end = start + 60 * rng.randrange(0, 1440)
     start = min(max(start, 0), 2**32 - 1)
     end = min(max(end, 0), 2**32 - 1)
     return codecs.sched_record(slot, rng.randrange(2), mask, rng.randrange(2), start, end).hex()
@@ -669,6 +682,11 @@ def gen_c10(rng) -> Dict[str, Any]:
         r = rng.random()
         if r < 0.4:
             steps.append({"kind": "get_schedules", "client": 0, "args": {}})
+            if rng.random() < 0.06:
+                # the device hangs up instead of listing: "an empty reply yields no schedules"
+                steps[-1]["replies"] = [None, {"mode": "eof"}]
+                steps.append({"kind": "disconnect", "client": 0})
+                steps.append({"kind": "connect", "client": 0})
         elif r < 0.8:
             a = {"start": gen_hhmm(rng, 0.03), "end": gen_hhmm(rng, 0.03), "days": gen_days(rng)}
             steps.append({"kind": "create_schedule", "client": 0, "args": a})
@@ -816,7 +834,7 @@ def life_steps(rng, actions, cl) -> List[dict]:
         elif a == "aexit":
             steps.append({"kind": "aexit"})
         elif a == "aexit_exc":
-            steps.append({"kind": "aexit", "exc": True})
+            steps.append({"kind": "aexit", "exc": True, "exc_kind": rng.choice(["plain", "plain", "cancelled", "keyboard", "base"])})
         elif a == "op_ok":
             k = "get_state" if t1 else ("get_shutter_state" if cl["devkind"] == "runner" else "get_breeze_state")
             steps.append({"kind": rng.choice([k, "control_device"]) if t1 else k,
